@@ -1,6 +1,7 @@
 package main
 
 import (
+	"github.com/restic/restic/internal/verif/simbe"
 	"context"
 	"fmt"
 	"sort"
@@ -31,7 +32,7 @@ func TestVerifC03(t *testing.T) {
 		cfg := genCfg(tp)
 		w := newWorld(r, cfg)
 		nBackups := tp.Range(1, 3)
-		nDamage := []int{1, 1, 1, 2, 3}[tp.Choose(5)]
+		nDamage := []int{0, 1, 1, 1, 2, 3}[tp.Choose(6)] // 0: nothing is damaged at rest, a pack may vanish while check runs
 		r.Set("cfg", cfg.String())
 		simrt.Run(r.T, w.s, 15*time.Minute, func() {
 			w.begin()
@@ -176,10 +177,63 @@ func TestVerifC03(t *testing.T) {
 			var sum checkSummary
 			var cerr error
 			var errOut string
+			// optionally a needed pack file vanishes while check is running (after its n-th download)
+			vanishPack, vanishAfter, loadsSeen, missedLoad := "", 0, 0, false
+			if due == "" && (nDamage == 0 || tp.Choose(3) == 0) {
+				var cands []string
+				needed := map[string]bool{}
+				for _, id := range sids {
+					if sn := after.Snapshots[id]; sn != nil {
+						need, _ := after.Reachable(sn.Tree)
+						for k := range need {
+							for _, e := range after.Indexed[k] {
+								needed[e.Pack] = true
+							}
+						}
+					}
+				}
+				for pk := range needed {
+					if after.Packs[pk] != nil {
+						cands = append(cands, pk)
+					}
+				}
+				sort.Strings(cands)
+				if len(cands) > 0 {
+					vanishPack = cands[tp.Choose(len(cands))]
+					vanishAfter = tp.Choose(12)
+				}
+			}
+			checkProc := w.newProc("check")
+			if vanishPack != "" {
+				w.store.OnArrive = append(w.store.OnArrive, func(c *simbe.Client, op string, h backend.Handle) {
+					if c != checkProc.cl || op != "Load" {
+						return
+					}
+					if loadsSeen == vanishAfter && w.store.Get(backend.Handle{Type: backend.PackFile, Name: vanishPack}) != nil {
+						w.store.Del(backend.Handle{Type: backend.PackFile, Name: vanishPack})
+						w.s.Count("fault:pack-vanished-during-check")
+					}
+					loadsSeen++
+					if h.Type == backend.PackFile && h.Name == vanishPack && w.store.Get(h) == nil {
+						missedLoad = true
+					}
+				})
+			}
 			w.free(func() {
-				sum, cerr, errOut = w.cmdCheck(w.newProc("check"), true)
+				sum, cerr, errOut = w.cmdCheck(checkProc, true)
 			})
+			w.store.OnArrive = nil
 			reported := cerr != nil || sum.NumErrors > 0
+			if missedLoad && !reported {
+				r.Fail("reported", "vanished-pack-not-reported", "pack %s, needed by a snapshot, vanished while check --read-data was running and check then failed to download it, but it reports no error", vanishPack[:8])
+			}
+			if vanishPack != "" {
+				where += fmt.Sprintf(" pack %s vanished during check (after download %d)", vanishPack[:8], vanishAfter)
+				if missedLoad {
+					r.Count("check_tried_to_read_the_vanished_pack", 1)
+				}
+				return
+			}
 			if due != "" && !reported {
 				r.Fail("reported", "damage-not-reported", "damage %s: %s, but check --read-data reports no error", where, due)
 			}
